@@ -291,6 +291,11 @@ def client_programs(c):
 
 
 def run(c):
+  # translator: regenerate the exception -> status facts from the current source (proof obligations)
+  from translators import error_table
+  facts, unknown = error_table.write(core.REPO, core.LEAN_DIR)
+  c.add_obligation('translator: handle_exception / _report_lookup_errors recognised', not unknown, '; '.join(unknown))
+  c.coverage_extra['error_table'] = facts
   c.proof_stage()
   rpc_histories(c)
   client_programs(c)
